@@ -17,7 +17,12 @@ TRUSTED = [
     "parameter -> src_seeded_models; np.random.seed/set_state sites -> src_seed_sites; truthiness tests on any seed in the "
     "running modes / run.py / configuration builders / models -> src_seed_truthiness; how each branch of "
     "ArchipelagoDataTree._build iterates over the created islands -> src_island_build; numba-compiled draws -> "
-    "src_numba_sites; fails closed on other shapes; helper calls are followed by NAME inside pyxel/models, an "
+    "src_numba_sites; set_random_seed is read by walking its paths (seed None / not None, normal exit / exception "
+    "thrown in at the yield), the call chain, _build and the model functions after general normalisations "
+    "(translator/c04_norm.py: helpers of the same module / class inlined, guard clauses -> if/else, single-assignment "
+    "aliases and named intermediate results substituted, if/else assignment -> conditional expression); a row that does "
+    "not have the shape the theorems need is a broken obligation, never a violation by itself; "
+    "fails closed on other shapes; helper calls are followed by NAME inside pyxel/models, an "
     "over-approximation; set expressions are recognised syntactically: literals, set()/frozenset(), comprehensions, "
     "set methods, `a.keys() & b`, names bound to those)",
     "Section variables of Model/Rng.v: the generator is ANY (gen, val, seed_gen : Z -> gen, next : Z -> gen -> gen * val) "
@@ -26,7 +31,9 @@ TRUSTED = [
     "correspondence harness: harness/props/c04.py session generator, harness/drivers/c04.py (sha1 of "
     "np.random.get_state() at probe points, renumbered by first occurrence; child interpreters started with their own "
     "PYTHONHASHSEED, the generator state carried from one to the next; wrappers installed from outside around "
-    "np.random.seed / np.random.set_state (bracket trace with thread and seed), pygmo.island.__init__ (planned delays, "
+    "np.random.seed / np.random.set_state (bracket trace with thread and seed; after a run that raised the generator "
+    "state is taken while the exception is still referenced), one Detector object reused by several runs where the "
+    "session says so, pygmo.island.__init__ (planned delays, "
     "finishing order) and ArchipelagoDataTree.__init__/_build (parallel flag, seed of every island)), "
     "probes/verif_probes.py rng_probe/fail/write",
     "modelled, not verified: np.random.get_state()/set_state() capture and restore the whole legacy generator; distinct "
@@ -76,7 +83,7 @@ BY_GROUP = {
 ENTRIES = ["ctor", "setter", "override", "yaml"]
 # keys of an item that say HOW it is run, not WHAT is run: two items that differ only in these are the
 # same configuration and must give the same result
-NON_SEMANTIC = ("via", "stale_seed", "proc", "delay", "predelay", "parallel", "cfg", "yaml_null")
+NON_SEMANTIC = ("via", "stale_seed", "proc", "delay", "predelay", "parallel", "cfg", "yaml_null", "share_det")
 NON_SEMANTIC_ENTRY = ("seed_via", "stale_seed")
 
 
@@ -109,6 +116,8 @@ def gen_pipeline(r, own_seeds: str, probes: bool, fail: bool, emccd=False):
             entries.append(dict(k="probe", group=g, draw=r.choice([0, 0, 1, 2, 3]) if own_seeds != "all" else 0))
         if fail and g == "charge_collection":
             entries.append(dict(k="fail", group=g, at_step=0))
+    if own_seeds != "all" and not fail and r.random() < 0.3:
+        entries.append(dict(k="model", model="sar_adc", noseed=True))    # stochastic, has no `seed` parameter
     if emccd:
         entries.append(dict(k="model", model="emccd"))
     if not any(e["k"] == "model" for e in entries):
@@ -266,6 +275,35 @@ def gen_xproc_sessions(r, quick: bool):
     return S
 
 
+def gen_history_sessions(r, quick: bool):
+    """(d) what ran EARLIER in the process must not matter: the same Detector object handed to several runs (as in a
+    notebook calling run_mode twice on one loaded configuration), under the same and under another pipeline seed;
+    stochastic models that have no `seed` parameter of their own (only the pipeline seed reaches them)."""
+    S = []
+    s1, s2 = r.sample(SEEDS + [r.randrange(2, 2 ** 32 - 1), r.randrange(2, 100000)], 2)
+    for variant in range(1 if quick else 3):
+        steps = [2, 1, 3][variant]
+        pipe = [dict(k="model", model="shot_noise"), dict(k="model", model="simple_conversion"), dict(k="collect"),
+                dict(k="model", model="fixed_pattern_noise"), dict(k="measure"),
+                dict(k="model", model=["ktc_noise", "output_node_noise", "ktc_noise"][variant]),
+                dict(k="probe", group="charge_measurement", draw=1)]
+        a = dict(op="exposure", pipeline=pipe, steps=steps, pipeline_seed=s1)
+        b = dict(op="exposure", pipeline=pipe, steps=steps, pipeline_seed=s2)
+        u = dict(op="exposure", pipeline=pipe, steps=steps, pipeline_seed=None)
+        sh = lambda x: dict(copy.deepcopy(x), share_det="A")      # noqa: E731
+        S.append(dict(kind="shared_detector", items=[
+            copy.deepcopy(a), dict(op="draws", k=2), sh(a), dict(op="seed", j=r.randrange(2 ** 32)), sh(a),
+            sh(b), sh(a), sh(u), dict(op="draws", k=1), sh(a), copy.deepcopy(b)]))
+    for variant in range(1 if quick else 2):
+        pipe = [dict(k="model", model="simple_conversion_det", nodraw=True), dict(k="collect"), dict(k="measure"),
+                dict(k="model", model="sar_adc", noseed=True), dict(k="probe", group="charge_measurement", draw=1)]
+        if variant:
+            pipe.insert(0, dict(k="model", model="shot_noise"))
+        a = dict(op="exposure", pipeline=pipe, steps=1 + variant, pipeline_seed=[s2, s1][variant])
+        S.append(dict(kind="unseeded_model", items=session_of(r, a, n=3)))
+    return S
+
+
 def gen_island_sessions(r, quick: bool):
     """(c) several islands, parallel and sequential creation, forced out-of-order completion."""
     S = []
@@ -333,6 +371,7 @@ def gen_sessions(ctx: Ctx, budget: int, salt="cases"):
     S += gen_entry_sessions(r, quick)
     S += gen_island_sessions(r, quick)
     S += gen_xproc_sessions(r, quick)
+    S += gen_history_sessions(r, quick)
     templates = ["exp_probe", "exp_models", "exp_nested", "exp_raise", "exp_closed", "exp_unseeded", "obs", "obs_dask",
                  "exp_models", "obs"]
     k = 0
@@ -378,6 +417,8 @@ MODE_NAME = {"exposure": "exposure", "observation": "observation", "observation_
 def entry_prog(e, step, base, i, seed_override=None):
     if e.get("nodraw"):
         return "Skip"
+    if e.get("noseed"):      # a stochastic model without a `seed` parameter: draws from whatever generator is current
+        return f"(Draw {4 * (base + 40 * step + i + 1)})"
     sd = e.get("seed") if seed_override is None else seed_override[0]
     return f"(model_prog {mrow(e['model'])} {core.copt(sd, core.cz)} {base + 40 * step + i + 1})"
 
@@ -677,30 +718,35 @@ def correspondence(ctx: Ctx, sessions, facts, tag="c"):
     return mism, viol, pairs
 
 
-def static_violations(ctx: Ctx, facts):
+def table_facts(facts):
+    """Rows of the regenerated tables that do not have the shape the theorems need, as (clause, case, text).
+    These are facts ABOUT THE SOURCE TEXT AS THE TRANSLATOR READ IT - a link the translator could not follow reads
+    as 'drops the seed', a draw it could not place reads as 'outside the bracket'.  They are therefore never
+    violations by themselves: each one is a broken obligation (the theorem over the table fails as well), the
+    search stage then tries to CONFIRM it by running the implementation, and only a run that breaks the
+    specification is reported with a concrete input."""
+    out = []
     for site, n in facts.get("seed_sites", []):
-        ctx.violations.append(Violation(
-            clause="global_seeding", case=dict(site=site, calls=n), observed="np.random.seed / set_state outside util/randomize.py",
-            expected="only set_random_seed touches the seed of the process-wide generator (and restores it)",
-            what=f"{site} reseeds the process-wide generator without restoring it",
-            sig=dict(clause="global_seeding", site=site)))
+        out.append(("global_seeding", dict(site=site, calls=n),
+                    f"{site}: np.random.seed / set_state outside util/randomize.py ({n} call(s))"))
     for r in facts.get("models", []):
         if r["outside"] or r["bare_seed"] or not r["bracket_seed"]:
-            ctx.violations.append(Violation(
-                clause="model_not_bracketed", case=dict(r), observed=dict(r),
-                expected="every draw of a model function with a `seed` parameter is inside `with set_random_seed(seed)`",
-                what=f"{r['name']}: {r['outside']} draw site(s) outside the bracket, {r['bare_seed']} bare reseeding call(s), "
-                     f"bracket given seed: {r['bracket_seed']}",
-                sig=dict(clause="model_not_bracketed", model=r["name"])))
+            out.append(("model_not_bracketed", dict(r),
+                        f"{r['name']}: {r['outside']} draw site(s) read as outside the bracket, {r['bare_seed']} bare reseeding "
+                        f"call(s), bracket given the function's own seed: {r['bracket_seed']}"))
     for m, e, l, x in facts.get("links", []):
         if x != "XId":
-            ctx.violations.append(Violation(
-                clause="seed_not_forwarded", case=dict(mode=m, entry=e, link=l, transfer=x),
-                observed="pipeline_seed not passed on" if x == "XDrop" else "pipeline_seed passed on only if truthy: the legal seed 0 becomes None",
-                expected="every link between the way a seed is given (constructor, YAML, setter, override) and "
-                         "set_random_seed passes every seed on unchanged, 0 included",
-                what=f"{m}{'/' + e if e else ''}: {l} " + ("drops the seed" if x == "XDrop" else "loses the seed 0 (truthiness test)"),
-                sig=dict(clause="seed_not_forwarded", mode=m, link=l, entry=e, transfer=x)))
+            out.append(("seed_not_forwarded", dict(mode=m, entry=e, link=l, transfer=x),
+                        f"{m}{'/' + e if e else ''}: {l} reads as " +
+                        ("not passing the seed on" if x == "XDrop" else "passing the seed on only if truthy (0 would become None)")))
+    return out
+
+
+def static_obligations(ctx: Ctx, facts):
+    for clause, case, text in table_facts(facts):
+        ctx.broken.append(Broken("table", f"{clause}: {text}"[:200],
+                                 "read from the source by translator/c04.py; not confirmed by a run of the implementation "
+                                 "unless a VIOLATION with a session is reported beside it", dict(clause=clause, **case)))
 
 
 def run(ctx: Ctx):
@@ -715,6 +761,9 @@ def run(ctx: Ctx):
         "multi-island calibrations use a deterministic pipeline and no pipeline seed: the island threads would otherwise "
         "interleave their brackets on the one process-wide generator (C07 / F16); what is judged there is the optimiser "
         "seed: island i must have the i-th derived seed whatever order the island threads start and finish in",
+        "history sessions: the same Detector OBJECT is handed to several runs (same seed, another seed, no seed) and "
+        "must give what a fresh detector gives; sar_adc_with_noise (stochastic, no `seed` parameter) runs under the "
+        "pipeline seed only",
         "a calibration's lazy champion data are not materialised (doing so fails in pyxel with KeyError 'pixel' for "
         "with_inherited_coords=True; not a C04 matter): its result is the champions' decision/fitness/parameters",
     ]
@@ -728,7 +777,7 @@ def run(ctx: Ctx):
         gen["Gen_C04.v"] = tr.FALLBACK
         facts = dict(models=[], seed_sites=[], links=[], seed_truthiness=[], island_build=[])
     core.proof_leg(ctx, gen, PROP_FILE)
-    static_violations(ctx, facts)
+    static_obligations(ctx, facts)
 
     sessions = gen_sessions(ctx, ctx.budget(64, 220))
     mism, viol, pairs = correspondence(ctx, sessions, facts)
@@ -778,13 +827,15 @@ def replay(ctx: Ctx, rp: dict) -> int:
         print(f"replay names a {rp.get('kind')}/{rp.get('clause')} that is not an executable session: "
               f"{rp.get('no_longer_checks') or rp.get('what')}")
         print(rp.get("detail", "") or json.dumps(case)[:600])
-        if rp.get("clause") in ("global_seeding", "model_not_bracketed", "seed_not_forwarded"):
+        if (rp.get("clause") in ("global_seeding", "model_not_bracketed", "seed_not_forwarded")
+                or (isinstance(case, dict) and case.get("clause"))):
             from translator import c04 as tr
             facts = tr.analyse(ctx.repo)
-            c2 = Ctx(prop=ctx.prop, tier=ctx.tier, seed=ctx.seed, repo=ctx.repo, build=ctx.build, work=ctx.work)
-            static_violations(c2, facts)
-            still = any(v.sig == rp.get("sig") for v in c2.violations)
-            print("source still has it:", still)
+            want = rp.get("clause") or case.get("clause")
+            still = [t for c, k, t in table_facts(facts) if c == want]
+            print("the regenerated tables still read that way:" if still else "the regenerated tables no longer read that way",
+                  "; ".join(still)[:600])
+            print("(a fact about the source text, not a failing input: nothing to run)")
             return 1 if still else 0
         return 1
     from translator import c04 as tr
